@@ -114,6 +114,65 @@ theorem vertexPlaq_sorted (L : Lat) (ps : List (List Dart)) (v : Nat) :
 theorem vertexPlaq_nodup (L : Lat) (ps : List (List Dart)) (v : Nat) : (vertexPlaq L ps v).Nodup :=
   (vertexPlaq_sorted L ps v).imp (fun h => Nat.ne_of_lt h)
 
+/-- **C02 (the vertex rows never overflow)**: a vertex lies on at most as many plaquettes as it has incident edges, so
+    writing each plaquette into "the first free slot" of a row with one slot per incident edge always finds a slot.
+    (Distinct plaquettes through `v` leave `v` along distinct darts, because plaquettes are pairwise dart-disjoint.) -/
+theorem vertex_row_fits (L : Lat) (hL : L.noSelfLoop = true) (ps : List (List Dart)) (hdis : ps.Pairwise List.Disjoint)
+    (hval : ∀ w ∈ ps, ∀ d ∈ w, d.1 < L.E) (v : Nat) :
+    (vertexPlaq L ps v).length ≤ (rotAt L v).length := by
+  classical
+  have key : ∀ n, n ∈ vertexPlaq L ps v → ∃ d : Dart, (∃ hn : n < ps.length, d ∈ ps[n]) ∧ L.tail d = v := by
+    intro n hn
+    obtain ⟨hlt, hv⟩ := (vertexPlaq_mem L ps v n).mp hn
+    unfold walkVertices at hv
+    obtain ⟨d, hd, hdv⟩ := List.mem_map.mp hv
+    exact ⟨d, ⟨hlt, hd⟩, hdv⟩
+  choose! f hf using key
+  let D : List Dart := (incident L v).map fun e => ((e, decide ((L.endsOf e).1 ≠ v)) : Dart)
+  have hsub : ∀ n ∈ vertexPlaq L ps v, f n ∈ D := by
+    intro n hn
+    obtain ⟨⟨hlt, hd⟩, ht⟩ := hf n hn
+    have hE : (f n).1 < L.E := hval _ (List.getElem_mem hlt) _ hd
+    have hnl := noLoop_of_noSelfLoop L hL (f n).1 hE
+    refine List.mem_map.mpr ⟨(f n).1, ?_, ?_⟩
+    · rw [mem_incident]
+      refine ⟨hE, ?_⟩
+      unfold Lat.tail at ht
+      split at ht
+      · right; exact ht
+      · left; exact ht
+    · unfold Lat.tail at ht
+      apply Prod.ext
+      · rfl
+      · simp only
+        cases hb : (f n).2
+        · rw [hb] at ht; simp only [Bool.false_eq_true, if_false] at ht
+          simp [ht]
+        · rw [hb] at ht; simp only [if_true] at ht
+          simp only [decide_eq_true_eq]
+          intro h1; exact hnl (h1.trans ht.symm)
+  have hinj : ∀ n ∈ vertexPlaq L ps v, ∀ m ∈ vertexPlaq L ps v, f n = f m → n = m := by
+    intro n hn m hm hfm
+    obtain ⟨⟨hlt, hd⟩, _⟩ := hf n hn
+    obtain ⟨⟨hlt', hd'⟩, _⟩ := hf m hm
+    by_contra hne
+    rw [List.pairwise_iff_getElem] at hdis
+    rcases Nat.lt_or_gt_of_ne hne with h | h
+    · exact (hdis n m hlt hlt' h) hd (hfm ▸ hd')
+    · exact (hdis m n hlt' hlt h) hd' (hfm ▸ hd)
+  have hnd : ((vertexPlaq L ps v).map f).Nodup := (List.nodup_map_iff_inj_on (vertexPlaq_nodup L ps v)).mpr hinj
+  have hle : ((vertexPlaq L ps v).map f).length ≤ D.length := by
+    apply List.Subperm.length_le
+    apply hnd.subperm
+    intro x hx
+    obtain ⟨n, hn, rfl⟩ := List.mem_map.mp hx
+    exact hsub n hn
+  have hD : D.length = (rotAt L v).length := by
+    simp only [D, List.length_map]
+    exact (rotAt_perm L v).length_eq.symm
+  rw [List.length_map] at hle
+  omega
+
 /-! ### plaquette → plaquette table -/
 
 theorem rev_notMem_of_nodup (w : List Dart) (hnd : (w.map (·.1)).Nodup) (d : Dart) (hd : d ∈ w) :
